@@ -21,6 +21,11 @@ Monitors (written against the property text, never against the model):
                                                   re-reading the socket bytes with a second real connection
                                                   yields a prefix of the sent messages
   * no exception ever escapes `__processConnection`
+  * family "reconnect" (monitor only, no model): ONE TcpConnection object used for two successive connections;
+    peer 1 writes k frames + a partial frame and closes (data and EOF in one read pass / data, EAGAIN, EOF in the
+    next pass / EOF alone); `onDisconnected` calls `connect()` at once (in progress / immediate / refused);
+    peer 2 writes its own messages on the new socket -> after the reconnect exactly a prefix of peer 2's
+    messages is delivered (nothing of peer 1), one disconnect notification per lost connection, no exception
 Private attributes touched: `_TcpConnection__readBuffer`, `__writeBuffer`, `__lastReadTime`, `__socket`
 (read only), `__processConnection` (called).
 """
@@ -120,6 +125,8 @@ class FakeSocket(object):
         self.closed = True
 
     def connect(self, addr):
+        if self.connect_ok == "immediate":      # connect() succeeded at once (loopback): no exception
+            return None
         raise _sockerr(errno.EINPROGRESS if self.connect_ok else errno.ECONNREFUSED)
 
     def getsockopt(self, *a):
@@ -945,6 +952,216 @@ def monitor(env, case, real, rng=None):
 
 
 # ------------------------------------------------------------------------------------------------
+# family "reconnect": one object, two successive connections, reconnect from inside onDisconnected
+# ------------------------------------------------------------------------------------------------
+RECONNECT_PATTERNS = ["same-pass", "eagain-then-eof", "split-then-eof", "eof-alone"]
+RECONNECT_MODES = ["inprogress", "immediate", "refused"]
+
+
+def split_sizes(rng, total, recvbuf, style=None):
+    """sizes (each 1..recvbuf) that sum to `total`"""
+    out = []
+    style = style or rng.choice(["tiny", "mixed", "big"])
+    if style == "tiny" and total > 400:
+        style = "mixed"
+    while total > 0:
+        n = {"tiny": rng.choice([1, 2, 3, 4, 5]), "big": recvbuf}.get(style) or \
+            rng.choice([1, 2, 3, 4, 7, 30, 200, recvbuf])
+        n = max(1, min(n, recvbuf, total))
+        out.append(n)
+        total -= n
+    return out
+
+
+def gen_reconnect(env, rng, n):
+    t = env.table
+    for j in range(n):
+        pattern = RECONNECT_PATTERNS[j % len(RECONNECT_PATTERNS)]
+        mode = RECONNECT_MODES[(j // len(RECONNECT_PATTERNS)) % len(RECONNECT_MODES)]
+        recvbuf = rng.choice([2 ** 13, 64, 16])
+        if pattern == "eof-alone":
+            peer1, partial = [], b""
+        else:
+            peer1 = [t.vid(gen_value(rng)) for _ in range(rng.randrange(0, 4))]
+            f = t.frame(t.vid(gen_value(rng)))
+            partial = f[:rng.randrange(0, len(f))] if rng.random() < 0.8 else b""
+            if not peer1 and not partial:
+                partial = f[:5]
+        n1 = sum(len(t.frame(i)) for i in peer1) + len(partial)
+        sizes1 = split_sizes(rng, n1, recvbuf)
+        if pattern == "same-pass":
+            ev1 = [sizes1 + ["eof"]]
+        elif pattern == "eagain-then-eof":
+            ev1 = [sizes1, ["eof"]]
+        elif pattern == "split-then-eof":
+            h = rng.randrange(0, len(sizes1) + 1)
+            ev1 = [sizes1[:h], sizes1[h:] + ["eof"]]
+        else:
+            ev1 = [["eof"]]
+        peer2 = [t.vid(gen_value(rng, rng.random() < 0.05)) for _ in range(rng.randrange(1, 5))]
+        n2 = sum(len(t.frame(i)) for i in peer2)
+        if n2 > 3000:
+            recvbuf = 2 ** 13
+        sizes2 = split_sizes(rng, n2, recvbuf)
+        ev2, i = [], 0
+        while i < len(sizes2):
+            g = rng.choice([1, 1, 2, 3, 50])
+            ev2.append(sizes2[i:i + g])
+            i += g
+        yield {"kind": "reconnect", "pattern": pattern, "mode": mode, "recvbuf": recvbuf,
+               "init": rng.choice(["socket", "connect"]), "first_mask": rng.choice(["w", "rw"]),
+               "peer1": peer1, "partial": partial.hex(), "ev1": ev1, "peer2": peer2, "ev2": ev2,
+               "extra_polls": rng.randrange(0, 3)}
+
+
+def run_reconnect(env, rc):
+    """drive the REAL class; -> observations (nothing here knows the model)"""
+    tc, t = env.tc, env.table
+    POLL = env.pl.POLL_EVENT_TYPE
+    poller = FakePoller()
+    obs = {"delivered": [], "ndisc": 0, "nconn": 0, "exc": [], "reconnect_result": None, "log": []}
+    holder = {}
+    stream2 = [b"".join(t.frame(i) for i in rc["peer2"]), 0]
+
+    def on_msg(m):
+        obs["delivered"].append((obs["ndisc"], t.vid(m)))     # epoch = number of lost connections so far
+
+    def on_disc():
+        obs["ndisc"] += 1
+        if obs["ndisc"] == 1:                                  # exactly what TCPTransport._onDisconnected does
+            env.connect_ok[0] = {"inprogress": True, "immediate": "immediate", "refused": False}[rc["mode"]]
+            obs["reconnect_result"] = holder["c"].connect("127.0.0.1", 4321)
+            env.last_sock[0].stream = stream2
+
+    def on_conn():
+        obs["nconn"] += 1
+
+    env.clock[0] = 0
+    kw = dict(onMessageReceived=on_msg, onDisconnected=on_disc, onConnected=on_conn, timeout=10 ** 6,
+              recvBufferSize=rc["recvbuf"])
+    stream1 = [b"".join(t.frame(i) for i in rc["peer1"]) + bytes.fromhex(rc["partial"]), 0]
+
+    def fire(sock, mask, recvs):
+        sock.recvs = [({"n": x, "so": False} if x != "eof" else ["", False]) for x in recvs]
+        sock.sends = []
+        sock.so_next = False
+        try:
+            holder["c"]._TcpConnection__processConnection(sock.fd, mask)
+        except Exception as e:   # noqa
+            if isinstance(e, AssertionError) and "harness bug" in str(e):
+                raise
+            obs["exc"].append(type(e).__name__)
+        obs["log"].append([sock.fd, mask, holder["c"].state, len(holder["c"]._TcpConnection__readBuffer),
+                           len(obs["delivered"]), obs["ndisc"]])
+
+    if rc["init"] == "socket":
+        sock1 = FakeSocket(env.cov)
+        env.last_sock[0] = sock1
+        conn = tc.TcpConnection(poller, socket=sock1, **kw)
+        holder["c"] = conn
+    else:
+        conn = tc.TcpConnection(poller, **kw)
+        holder["c"] = conn
+        env.connect_ok[0] = True
+        conn.connect("127.0.0.1", 4321)
+        sock1 = env.last_sock[0]
+        fire(sock1, POLL.WRITE, [])
+    sock1.stream = stream1
+    for recvs in rc["ev1"]:
+        env.clock[0] += 1
+        if sock1.closed:
+            break
+        fire(sock1, POLL.READ, recvs)
+    sock2 = env.last_sock[0] if env.last_sock[0] is not sock1 else None
+    if sock2 is not None and rc["mode"] != "refused":
+        env.clock[0] += 1
+        fire(sock2, POLL.WRITE if rc["first_mask"] == "w" else POLL.READ | POLL.WRITE, [])
+        for recvs in rc["ev2"]:
+            env.clock[0] += 1
+            if sock2.closed:
+                break
+            fire(sock2, POLL.READ, recvs)
+        for _ in range(rc.get("extra_polls", 0)):
+            env.clock[0] += 1
+            if sock2.closed:
+                break
+            fire(sock2, POLL.READ | POLL.WRITE, [])
+    obs["state"] = conn.state
+    obs["rbuf"] = len(conn._TcpConnection__readBuffer)
+    obs["peer1_unread"] = len(stream1[0]) - stream1[1]
+    return obs
+
+
+def monitor_reconnect(env, rc, obs):
+    """C13 on one object used for two connections: each connection delivers a prefix of what ITS peer sent"""
+    v = []
+    for cls in obs["exc"]:
+        v.append({"signature": "tcp_connection.reconnect:exception-escaped:" + cls,
+                  "what": "exception %s escaped from __processConnection around a reconnect from onDisconnected" % cls})
+    first = [i for ep, i in obs["delivered"] if ep == 0]
+    second = [i for ep, i in obs["delivered"] if ep >= 1]
+    if first != rc["peer1"][:len(first)]:
+        v.append({"signature": "tcp_connection.reconnect:first-connection-delivered-differs",
+                  "what": "first connection delivered %r, its peer sent %r" % (first[:8], rc["peer1"][:8])})
+    if rc["mode"] == "refused":
+        if second or obs["state"] != 0 or obs["ndisc"] != 1:
+            v.append({"signature": "tcp_connection.reconnect:refused-connect-not-quiet",
+                      "what": "connect() from onDisconnected was refused, yet delivered %r, state %s, onDisconnected x%d"
+                              % (second[:8], STATE_NAMES.get(obs["state"]), obs["ndisc"])})
+        return v
+    if second != rc["peer2"][:len(second)]:
+        stale = [i for i in second if i in rc["peer1"] and i not in rc["peer2"]]
+        v.append({"signature": "tcp_connection.reconnect:delivered-not-prefix-of-new-peer" +
+                               (":stale-message-of-old-connection" if stale else ""),
+                  "what": "after the reconnect the object delivered ids %r; the new peer sent %r (old peer: %r + %d partial bytes, pattern %s)"
+                          % (second[:8], rc["peer2"][:8], rc["peer1"][:8], len(rc["partial"]) // 2, rc["pattern"])})
+    elif second != rc["peer2"] or obs["state"] != 2 or obs["rbuf"] != 0:
+        v.append({"signature": "tcp_connection.reconnect:new-connection-incomplete",
+                  "what": "new peer's whole valid stream was read, delivered %d of %d messages, state %s, %d bytes left in the read buffer"
+                          % (len(second), len(rc["peer2"]), STATE_NAMES.get(obs["state"]), obs["rbuf"])})
+    if obs["ndisc"] != 1:
+        v.append({"signature": "tcp_connection.reconnect:disconnect-count",
+                  "what": "one connection was lost, onDisconnected fired %d times" % obs["ndisc"]})
+    return v
+
+
+def public_reconnect(env, rc):
+    c = dict(rc)
+    c["vals"] = {str(i): env.pk.dumps(env.table.vals[i]).hex() for i in sorted(set(rc["peer1"]) | set(rc["peer2"]))}
+    return c
+
+
+def load_reconnect(env, pc):
+    remap = {int(k): env.table.vid(env.pk.loads(bytes.fromhex(h))) for k, h in pc.get("vals", {}).items()}
+    c = {k: v for k, v in pc.items() if k != "vals"}
+    c["peer1"] = [remap.get(i, i) for i in pc["peer1"]]
+    c["peer2"] = [remap.get(i, i) for i in pc["peer2"]]
+    return c
+
+
+def run_reconnect_family(env, rng, n, cov, out, seen=None):
+    """runs n cases, appends violations (with replay) to `out`; returns number of cases"""
+    cnt = 0
+    for rc in gen_reconnect(env, rng, n):
+        cnt += 1
+        obs = run_reconnect(env, rc)
+        for key in ("reconnect:" + rc["pattern"], "reconnect:" + rc["mode"], "reconnect:init-" + rc["init"]):
+            cov[key] = cov.get(key, 0) + 1
+        if obs["peer1_unread"] == 0 and rc["pattern"] != "eof-alone":
+            cov["reconnect:old-data-fully-read"] = cov.get("reconnect:old-data-fully-read", 0) + 1
+        if [1 for ep, _ in obs["delivered"] if ep >= 1]:
+            cov["reconnect:delivered-on-new-connection"] = cov.get("reconnect:delivered-on-new-connection", 0) + 1
+        if seen is not None:
+            seen.add(hashlib.sha1(json.dumps(rc, sort_keys=True).encode()).hexdigest())
+        for x in monitor_reconnect(env, rc, obs):
+            cov["violations"] = cov.get("violations", 0) + 1
+            if x["signature"] not in [y["signature"] for y in out] and len(out) < 8:
+                x["replay"] = public_reconnect(env, rc)
+                out.append(x)
+    return cnt
+
+
+# ------------------------------------------------------------------------------------------------
 # compare / shrink
 # ------------------------------------------------------------------------------------------------
 def first_diff(model, real):
@@ -1136,6 +1353,10 @@ def run(ctx):
                         "impl": dict(zip(STEP_FIELDS, d2[2])) if isinstance(d2[2], list) and len(d2[2]) == 11 else d2[2],
                         "note": "first difference after event %d of kind %s (case kind %s)" % (
                             d2[0], small["evs"][d2[0]]["k"] if d2[0] < len(small["evs"]) else "end", c["kind"])})
+        nrec = run_reconnect_family(env, ctx.rng("tcp_framing/reconnect"), ctx.scale(240, 6000), cov,
+                                    res["violations"], seen)
+        res["cases"] += nrec
+        kinds["reconnect"] = nrec
         res["distinct"] = len(seen)
         cov["kinds"] = kinds
         for c in sample_src:
@@ -1153,7 +1374,8 @@ def run(ctx):
         floors = ["send:full", "send:short", "send:zero", "send:negative", "send:eagain", "send:error",
                   "recv:data", "recv:eof", "recv:error", "recv:eagain", "so_error", "class:negative",
                   "class:undecodable", "class:incomplete", "class:decodes", "ev:send", "ev:poll", "ev:disc", "ev:conn",
-                  "payload>8192", "disconnects"]
+                  "payload>8192", "disconnects"] + ["reconnect:" + x for x in RECONNECT_PATTERNS + RECONNECT_MODES] + \
+                 ["reconnect:old-data-fully-read", "reconnect:delivered-on-new-connection"]
         missing = [f for f in floors if not cov.get(f)]
         if missing:
             res["inconclusive"] = "coverage floor missed: " + ", ".join(missing)
@@ -1177,6 +1399,7 @@ def search(ctx, unproved):
                     if x["signature"] not in [y["signature"] for y in out]:
                         x["replay"] = public_case(env, c)
                         out.append(x)
+            run_reconnect_family(env, ctx.rng("tcp_framing/search-reconnect/%d" % salt), 240, cov, out)
             if out:
                 break
     return out
@@ -1186,6 +1409,20 @@ def replay(ctx, violation):
     pc = violation.get("replay")
     if not pc:
         return {"violated": False, "note": "no replay data in the violation record"}
+    if pc.get("kind") == "reconnect":
+        with Env(ctx.repo, {}) as env:
+            rc = load_reconnect(env, pc)
+            obs = run_reconnect(env, rc)
+            viol = monitor_reconnect(env, rc, obs)
+            return {"violated": bool(viol), "violations": viol,
+                    "implementation": {"delivered_(epoch,id)": obs["delivered"], "state": STATE_NAMES.get(obs["state"]),
+                                       "onDisconnected": obs["ndisc"], "onConnected": obs["nconn"],
+                                       "connect()_returned": obs["reconnect_result"], "exceptions": obs["exc"],
+                                       "read_buffer_len": obs["rbuf"],
+                                       "events_[fd,mask,state,rbuf,ndelivered,ndisc]": obs["log"][:40]},
+                    "expect": {"first connection": "prefix of %r" % rc["peer1"], "after reconnect": rc["peer2"],
+                               "pattern": rc["pattern"], "mode": rc["mode"]},
+                    "model": "not modelled (callback that reconnects is outside the model's alphabet): monitor only"}
     with Env(ctx.repo, {}) as env:
         c = load_public_case(env, pc)
         r = env.run_real(c)
